@@ -105,8 +105,7 @@ def run_chain(case):
     desc = lambda k: "chain on encoded %s %s: %s" % (dt, short(case["init"], 120), short(case["steps"][:k + 1], 400))
     for k, st in enumerate(case["steps"]):
         tags.append("step:" + st["op"])
-        with np.errstate(all="ignore"):
-            o = attempt(_apply, st, dense)
+        o = attempt(_apply, st, dense)      # (no errstate override here: the floating-point-event tap must see what numpy does on the dense data)
         if not o.ok:
             return undefined("numpy raises at step %d" % k, tags)
         CTX.tick("c16:compare")
@@ -141,7 +140,7 @@ def run_chain(case):
     last, dl = enc[-1], dense[-1]
     if len(dl):
         name = case.get("red", "sum")
-        with np.errstate(all="ignore"):
+        if True:
             o = attempt(lambda: getattr(dl, name)())
         a = attempt(lambda: getattr(last, name)())
         if o.ok:
